@@ -115,6 +115,82 @@ def check_setop(case):
             'cls': ['set:' + op, 'kind:' + kind, 'rel:' + case['rel'], 'identical' if identical else 'differ']}
 
 
+
+# ---------------------------------------------------------------------------------------------
+# hierarchies built by from_product (their levels share Index objects) against a hierarchy of the same shape that differs in
+# one inner label: set algebra and operators must still pair by label
+
+@st.composite
+def product_cases(draw):
+    ch = {'what': draw(st.sampled_from(['union', 'intersection', 'difference', 'series_op', 'frame_cols_op', 'equals'])),
+          'swap': draw(st.booleans()), 'route_b': draw(st.sampled_from(['from_labels', 'from_product_same', 'from_labels_same']))}
+    outer = draw(st.lists(st.sampled_from(['a', 'b', 'c', 'd']), min_size=2, max_size=3, unique=True))
+    inner = draw(st.lists(st.integers(1, 6), min_size=2, max_size=3, unique=True))
+    return dict({'outer': sorted(outer), 'inner': inner, 'g': draw(st.integers(0, len(outer) - 1)), 'k': draw(st.integers(0, len(inner) - 1))}, **ch)
+
+
+def check_product(case):
+    import itertools
+    outer, inner = case['outer'], case['inner']
+    la = list(itertools.product(outer, inner))
+    same = case['route_b'] != 'from_labels'
+    lb = list(la)
+    if not same:
+        # one inner label under outer label g replaced by a label no one else has (the shape stays the same)
+        p = case['g'] * len(inner) + case['k']
+        lb[p] = (outer[case['g']], 90 + case['k'])
+    a = sf.IndexHierarchy.from_product(outer, inner)
+    b = sf.IndexHierarchy.from_product(outer, inner) if case['route_b'] == 'from_product_same' else sf.IndexHierarchy.from_labels(lb)
+    if case['swap']:
+        a, b, la, lb = b, a, lb, la
+    ca, cb = [canon(x) for x in la], [canon(x) for x in lb]
+    what = case['what']
+    classes = ['prod:' + what, 'prod-b:' + case['route_b'], 'swapped' if case['swap'] else 'product-left', 'g:last' if case['g'] == len(outer) - 1 else 'g:inner']
+
+    def member(x, s):
+        return any(eq(x, y) for y in s)
+    if what in ('union', 'intersection', 'difference'):
+        r = lib(lambda: getattr(a, what)(b))
+        if isinstance(r, Raised):
+            raise Failure('raised:%s' % r.cls, '%s of a product-built hierarchy raised %r' % (what, r.exc), r.where)
+        want = {'union': ca + [x for x in cb if not member(x, ca)], 'intersection': [x for x in ca if member(x, cb)],
+                'difference': [x for x in ca if not member(x, cb)]}[what]
+        got = obs.labels_of(r)
+        if not same_multiset(got, want):
+            raise Failure('set', '%s(%s, %s) -> %s expected (as a set) %s' % (what, short(la), short(lb), short(got), short(want)))
+    elif what == 'equals':
+        r1, r2 = lib(lambda: a.equals(b)), lib(lambda: b.equals(a))
+        if isinstance(r1, Raised) or isinstance(r2, Raised):
+            bad = r1 if isinstance(r1, Raised) else r2
+            raise Failure('raised:%s' % bad.cls, 'equals raised %r' % bad.exc, bad.where)
+        if bool(r1) != same or bool(r2) != same:
+            raise Failure('set', 'equals(%s, %s) -> %r / %r expected %r' % (short(la), short(lb), r1, r2, same))
+    else:
+        va, vb = np.arange(len(la)) + 1, (np.arange(len(lb)) + 1) * 100
+        if what == 'series_op':
+            x, y = sf.Series(va, index=a), sf.Series(vb, index=b)
+            r = lib(lambda: x + y)
+        else:
+            x = sf.Frame(np.vstack([va, va]), index=('p', 'q'), columns=a)
+            y = sf.Frame(np.vstack([vb, vb]), index=('p', 'q'), columns=b)
+            r = lib(lambda: x + y)
+        if isinstance(r, Raised):
+            raise Failure('raised:%s' % r.cls, '%s on product-built labels raised %r' % (what, r.exc), r.where)
+        da = {repr(k): int(v) for k, v in zip(ca, va)}
+        db = {repr(k): int(v) for k, v in zip(cb, vb)}
+        labs = obs.labels_of(r.index if what == 'series_op' else r.columns)
+        vals = arr_list(r.values) if what == 'series_op' else arr_list(r.values[0])
+        want_labels = ca + [k for k in cb if not member(k, ca)]
+        if not same_multiset(labs, want_labels):
+            raise Failure('labels', '%s: result labels %s expected (as a set) %s' % (what, short(labs), short(want_labels)))
+        for k, v in zip(labs, vals):
+            if repr(k) in da and repr(k) in db:
+                if not eq(v, da[repr(k)] + db[repr(k)]):
+                    raise Failure('value', '%s: label %r holds %r expected %r + %r' % (what, k, v, da[repr(k)], db[repr(k)]))
+            elif not is_missing(v):
+                raise Failure('value', '%s: label %r is held by one operand only but the result holds %r' % (what, k, v))
+    return {'nt': not same, 'cls': classes}
+
 # ---------------------------------------------------------------------------------------------
 # binary operators
 
@@ -461,4 +537,6 @@ SUBS = [
         rule='Series op Series vs NumPy on model-aligned arrays; metamorphic label permutation'),
     Sub('frame_binop', frame_cases(), check_frame, quick=3200, thorough=24000, tag=tag,
         rule='Frame op Frame / Series vs cell-wise model'),
+    Sub('product_trees', product_cases(), check_product, quick=1600, thorough=8000, tag=tag,
+        rule='hierarchies built by from_product vs a same-shaped hierarchy differing in one inner label: set algebra, equals, Series / Frame operators pair by label'),
 ]
